@@ -567,6 +567,32 @@ Section Api.
         end
     end.
 
+  (* m_mod_src_register_fd with M_SRC_DUP: the library polls, reports and finally closes a DUPLICATE of the user's descriptor. The source is
+     keyed by the duplicate -- a number the user never chose -- so it never collides with a registered key and cannot be deregistered by the
+     user's descriptor (observation D36). Model of the fresh number: 2^32 * (ordinal of the duplicate) + the user's descriptor id. *)
+  Definition dup_key (w : world) (key : N) : N :=
+    (4294967296 * N.of_nat (S (length (filter (fun s => f_dup (s_fl s)) (w_srcs w)))) + key)%N.
+  Definition fd_of_key (k : N) : N := (k mod 4294967296)%N.
+  Definition register_dup_fd (w : world) (m : modid) (key : N) (p : nat) (oneshot : bool) (up : N) : world * Z :=
+    match mod_assert w m with
+    | Some e => (w, e)
+    | None =>
+        if Nat.leb 4 p then (w, rEINVAL) else
+        match consume_token w m with
+        | None => (w, rEAGAIN)
+        | Some w1 =>
+            match get_mod w1 m with
+            | None => (w1, rEINVAL)
+            | Some mr =>
+                let fl := mkSF PHigh false oneshot true true INone in       (* M_SRC_DUP implies M_SRC_FD_AUTOCLOSE *)
+                let '(w2, i) := new_src w1 (Some m) KFd (dup_key w1 key) fl up in
+                let w3 := upd_mod w2 m (mod_with_srcs (insert_sorted w2 i (m_srcs mr))) in
+                let w4 := if mstate_eqb (m_state mr) MRunning then poll_add w3 i else w3 in
+                (w4, 0%Z)
+            end
+        end
+    end.
+
   Definition deregister_mod_src (w : world) (m : modid) (k : skind) (key : N) : world * Z :=
     match mod_assert w m with
     | Some e => (w, e)
@@ -934,7 +960,7 @@ Section Api.
                          | Some mr => match m_pipe mr with Some (_ :: _) => true | _ => false end
                          | None => false end
              | None => false end
-    | KFd => negb (Nat.eqb (assoc_n (s_key s) (w_ufd w) 0) 0)
+    | KFd => negb (Nat.eqb (assoc_n (fd_of_key (s_key s)) (w_ufd w) 0) 0)
     | _ => negb (Nat.eqb (s_pending s) 0)
     end.
 
@@ -1024,7 +1050,7 @@ Section Api.
                     let '(w2, e) := make_evt w1 k (Some i) pay 0 in
                     (* user descriptors are level triggered: the scripted handler reads one byte per event *)
                     let w3 := match k with
-                              | KFd => set_ufd w2 (map (fun p => if N.eqb (fst p) (s_key s) then (fst p, snd p - 1) else p) (w_ufd w2))
+                              | KFd => set_ufd w2 (map (fun p => if N.eqb (fst p) (fd_of_key (s_key s)) then (fst p, snd p - 1) else p) (w_ufd w2))
                               | _ => w2 end in
                     let w4 := if oneshot then
                                 let w' := poll_rm w3 i in
